@@ -18,6 +18,10 @@ func GenericOracle(sc *Scenario, w *World, x *Exec) []Violation {
 		// an uncontrolled goroutine is left behind
 		vs = append(vs, Violation{Prop: "C14", Rule: "no-goroutine-left", Sig: "bubble-not-drained", Detail: x.Bubble})
 	}
+	if len(w.FrameMutations) > 0 {
+		vs = append(vs, Violation{Prop: "C01", Rule: "frames-immutable-after-send", Sig: "msg:frame-modified-after-send",
+			Detail: "grpc lets a transport use a message lazily, so it must not be modified after Send/SendMsg returned: " + strings.Join(w.FrameMutations, "; ")})
+	}
 	limit := sc.Opt.AllocLimit
 	if limit == 0 {
 		limit = DefaultAllocLimit
